@@ -199,6 +199,14 @@ func apply3(op string, in *model3d.Mesh, first bool) (out *model3d.Mesh, st opSt
 		case "Decimator":
 			d := &model3d.Decimator{PlaneDistance: 0.05, BoundaryDistance: 0.05, EliminateCorners: true,
 				FilterFunc: func(c model3d.Coord3D) bool { return !protectedX(c) }}
+			// the documented options in turn: how many ways of splitting a loop are tried, the feature angle
+			switch in.NumTriangles() % 3 {
+			case 1:
+				d.SplitAttempts = 3
+			case 2:
+				d.SplitAttempts = 2
+				d.FeatureAngle = 0.3
+			}
 			out, decimating = d.Decimate(in), true
 		case "ElimCoplanar":
 			out, decimating, exact = in.EliminateCoplanar(1e-8), true, true
